@@ -68,6 +68,10 @@ fn request(addr: SocketAddr, method: &str, path: &[u8], body: &[u8]) -> Result<R
     s.write_all(&req).map_err(|e| e.to_string())?;
     let mut buf = Vec::new();
     s.read_to_end(&mut buf).map_err(|e| format!("read: {}", e))?;
+    parse_response(buf)
+}
+
+fn parse_response(buf: Vec<u8>) -> Result<Resp, String> {
     let hend = buf.windows(4).position(|w| w == b"\r\n\r\n").ok_or("no header end")?;
     let head = String::from_utf8_lossy(&buf[..hend]).to_string();
     let mut lines = head.split("\r\n");
@@ -323,6 +327,114 @@ fn main() {
             *stats.entry("http.concurrent.requests".into()).or_default() += 1;
             lines.push(r);
         }
+    }
+
+    // ---- slow-reader phase: a publication made while the responder is in the middle of a large response of
+    // the same class must be served afterwards.  The large asset is oracle-only (no `pub` line: its body would be
+    // 64 MB of hex); the small one and the request for it are ordinary model lines.
+    for c in 0..3usize {
+        let ei = c % eps.len();
+        let big_n = 32usize << 20;
+        let big_id = Uuid::from_bytes(rng.bytes(16).try_into().unwrap());
+        let big_bin: Vec<u8> = match c {
+            2 => {
+                let bytes: Vec<u8> = (0..big_n).map(|i| (i % 251) as u8 ^ (i >> 13) as u8).collect();
+                let a = AudioSource { bytes: bytes.clone().into() };
+                eps[ei].ep.serve_audio(&big_id, &a);
+                bytes
+            }
+            1 => {
+                let mut x = rng.u64() | 1;
+                let data: Vec<u8> = (0..big_n).map(|_| { x ^= x << 13; x ^= x >> 7; x ^= x << 17; x as u8 }).collect();
+                let img = Image::new(
+                    Extent3d { width: 4096, height: (big_n / 4096) as u32, depth_or_array_layers: 1 },
+                    TextureDimension::D2,
+                    data,
+                    TextureFormat::R8Unorm,
+                    RenderAssetUsages::RENDER_WORLD | RenderAssetUsages::MAIN_WORLD,
+                );
+                eps[ei].ep.serve_image(&big_id, &img);
+                verif::image_to_bin(&img).unwrap()
+            }
+            _ => {
+                let mut x = rng.u64() | 1;
+                let mut mesh = Mesh::new(PrimitiveTopology::PointList, RenderAssetUsages::MAIN_WORLD | RenderAssetUsages::RENDER_WORLD);
+                mesh.insert_attribute(
+                    Mesh::ATTRIBUTE_POSITION,
+                    (0..big_n / 12).map(|_| { x ^= x << 13; x ^= x >> 7; x ^= x << 17; [(x as u32 >> 8) as f32, (x >> 40) as f32, 1.0] }).collect::<Vec<[f32; 3]>>(),
+                );
+                eps[ei].ep.serve_mesh(&big_id, &mesh);
+                verif::mesh_to_bin(&mesh)
+            }
+        };
+        let addr = eps[ei].addr;
+        let path = format!("/{}/{}", CLASSES[c], big_id);
+        let (tx, rx) = std::sync::mpsc::channel::<()>();
+        let slow = std::thread::spawn(move || -> Result<Vec<u8>, String> {
+            let mut s = TcpStream::connect(addr).map_err(|e| e.to_string())?;
+            s.set_read_timeout(Some(Duration::from_secs(30))).ok();
+            write!(s, "GET {} HTTP/1.1\r\nHost: localhost\r\nConnection: close\r\n\r\n", path).map_err(|e| e.to_string())?;
+            let mut raw = vec![0u8; 512];
+            let n = s.read(&mut raw).map_err(|e| e.to_string())?;
+            raw.truncate(n);
+            tx.send(()).ok();
+            std::thread::sleep(Duration::from_millis(400));
+            s.read_to_end(&mut raw).map_err(|e| e.to_string())?;
+            Ok(raw)
+        });
+        let started = rx.recv_timeout(Duration::from_secs(30)).is_ok();
+        // the responder is inside the large response now: publish a small asset of the same class
+        let id = Uuid::from_bytes(rng.bytes(16).try_into().unwrap());
+        let blen = rng.below(40) + 1;
+        let bytes = payload(&mut rng, blen);
+        let (bin, url) = match c {
+            2 => {
+                let a = AudioSource { bytes: bytes.clone().into() };
+                (bytes, eps[ei].ep.serve_audio(&id, &a))
+            }
+            1 => {
+                let img = Image::new(
+                    Extent3d { width: bytes.len() as u32, height: 1, depth_or_array_layers: 1 },
+                    TextureDimension::D2,
+                    bytes,
+                    TextureFormat::R8Unorm,
+                    RenderAssetUsages::RENDER_WORLD | RenderAssetUsages::MAIN_WORLD,
+                );
+                (verif::image_to_bin(&img).unwrap(), eps[ei].ep.serve_image(&id, &img))
+            }
+            _ => {
+                let mut mesh = Mesh::new(PrimitiveTopology::LineStrip, RenderAssetUsages::MAIN_WORLD | RenderAssetUsages::RENDER_WORLD);
+                mesh.insert_attribute(Mesh::ATTRIBUTE_POSITION, vec![[0.5f32, bytes.len() as f32, bytes[0] as f32]]);
+                (verif::mesh_to_bin(&mesh), eps[ei].ep.serve_mesh(&id, &mesh))
+            }
+        };
+        eps[ei].published.push((c, id));
+        lines.push(format!("pub {} {} {} {} URL {}", ei, CLASSES[c], hex(id.as_bytes()), hex(&bin), hex(url.as_bytes())));
+        *stats.entry(format!("http.slow_reader.{}", CLASSES[c])).or_default() += 1;
+        let tag = format!("http-{}-slow{}", seed, c);
+        match slow.join().unwrap() {
+            Ok(raw) if started => {
+                let ok = parse_response(raw).map(|r| r.status == 200 && r.body == big_bin).unwrap_or(false);
+                if !ok {
+                    oracle_fail += 1;
+                    lines.push(format!("#ORACLE-FAIL http {} a {} MiB {} body read slowly is not the published one", tag, big_n >> 20, CLASSES[c]));
+                }
+            }
+            other => {
+                oracle_fail += 1;
+                lines.push(format!("#ORACLE-FAIL http {} the slow download of a large {} did not complete: {:?}", tag, CLASSES[c], other.err()));
+            }
+        }
+        let path = format!("/{}/{}", CLASSES[c], id);
+        let r = request(eps[ei].addr, "GET", path.as_bytes(), &[]);
+        match &r {
+            Ok(resp) if resp.status == 200 && resp.body == bin => {}
+            _ => {
+                oracle_fail += 1;
+                lines.push(format!("#ORACLE-FAIL http {} a {} published while a large response of the same class was being written is not served afterwards ({})", tag, CLASSES[c], resp_desc(&r).chars().take(60).collect::<String>()));
+            }
+        }
+        lines.push(format!("req {} {} GET {} {}", tag, ei, hex(path.as_bytes()), resp_desc(&r)));
     }
 
     // ---- liveness after everything: every endpoint still answers a fresh valid request
